@@ -175,8 +175,11 @@ impl Watcher {
             .authenticate_user(&appointment.to_vec(), &user_signature)
             .map_err(|_| AddAppointmentFailure::AuthenticationFailure)?;
 
-        let (has_subscription_expired, expiry) =
-            self.gatekeeper.has_subscription_expired(user_id).unwrap();
+        // The user may have been deleted since it was authenticated (if a new block outdated its subscription).
+        let (has_subscription_expired, expiry) = self
+            .gatekeeper
+            .has_subscription_expired(user_id)
+            .map_err(|_| AddAppointmentFailure::AuthenticationFailure)?;
 
         if has_subscription_expired {
             return Err(AddAppointmentFailure::SubscriptionExpired(expiry));
@@ -321,8 +324,11 @@ impl Watcher {
             .authenticate_user(message.as_bytes(), user_signature)
             .map_err(|_| GetAppointmentFailure::AuthenticationFailure)?;
 
-        let (has_subscription_expired, expiry) =
-            self.gatekeeper.has_subscription_expired(user_id).unwrap();
+        // The user may have been deleted since it was authenticated (if a new block outdated its subscription).
+        let (has_subscription_expired, expiry) = self
+            .gatekeeper
+            .has_subscription_expired(user_id)
+            .map_err(|_| GetAppointmentFailure::AuthenticationFailure)?;
 
         if has_subscription_expired {
             return Err(GetAppointmentFailure::SubscriptionExpired(expiry));
@@ -382,7 +388,11 @@ impl Watcher {
             // WARNING(deadlock): Don't lock `self.dbm` over the loop since `Responder::handle_breach` uses it as well.
             let uuids = self.dbm.lock().unwrap().load_uuids(locator);
             for uuid in uuids {
-                let appointment = self.dbm.lock().unwrap().load_appointment(uuid).unwrap();
+                // The appointment may be gone by now (e.g. a request for it bounced in the Responder meanwhile).
+                let appointment = match self.dbm.lock().unwrap().load_appointment(uuid) {
+                    Some(appointment) => appointment,
+                    None => continue,
+                };
                 match cryptography::decrypt(
                     appointment.encrypted_blob(),
                     &dispute_tx.compute_txid(),
@@ -469,15 +479,19 @@ impl Watcher {
             .authenticate_user(message.as_bytes(), signature)
             .map_err(|_| GetSubscriptionInfoFailure::AuthenticationFailure)?;
 
-        let (has_subscription_expired, expiry) =
-            self.gatekeeper.has_subscription_expired(user_id).unwrap();
+        // The user may have been deleted since it was authenticated (if a new block outdated its subscription).
+        let (has_subscription_expired, expiry) = self
+            .gatekeeper
+            .has_subscription_expired(user_id)
+            .map_err(|_| GetSubscriptionInfoFailure::AuthenticationFailure)?;
 
         if has_subscription_expired {
             return Err(GetSubscriptionInfoFailure::SubscriptionExpired(expiry));
         }
 
-        let (subscription_info, locators) = self.gatekeeper.get_user_info(user_id).unwrap();
-        Ok((subscription_info, locators))
+        self.gatekeeper
+            .get_user_info(user_id)
+            .ok_or(GetSubscriptionInfoFailure::AuthenticationFailure)
     }
 }
 
